@@ -220,6 +220,23 @@ Section Linear.
       end.
 End Linear.
 
+(** * Several publications through one adapter
+
+    Everything the adapter remembers (ids / interpolator / outlier set / fill ids / output mask) is
+    determined by the grids and masks during the info exchange (regrid.py 84-90, guarded by
+    [_is_initialized]; 198-208; 286-341); [_get_data] (210-218, 343-370) only reads it.  A sequence
+    of publications is therefore regridded element by element: no publication leaves a trace. *)
+Definition regrid_nearest_seq {A : Type} (nearest : point -> list point -> nat)
+    (am down : option mk) (smask : option (list bool)) (src_ma : bool)
+    (spts : list point) (pubs : list (list A)) (tpts : list point) (d : A) : list (outcome A) :=
+  map (fun svals => regrid_nearest nearest am down smask src_ma spts svals tpts d) pubs.
+
+Definition regrid_linear_seq (nearest : point -> list point -> nat)
+    (lin : list point -> list Q -> point -> option Q) (fill : bool)
+    (am down : option mk) (smask : option (list bool)) (src_ma : bool)
+    (spts : list point) (pubs : list (list Q)) (tpts : list point) : list (outcome Q) :=
+  map (fun svals => regrid_linear nearest lin fill am down smask src_ma spts svals tpts) pubs.
+
 (** * Correspondence interface *)
 
 (** The implementation's linear interpolator is not computable inside Coq.  For the evaluation of a
